@@ -336,4 +336,91 @@ def record (f : List Nat) (u : Int) : List Nat :=
 def WF (s : State) : Prop :=
   s.shm.length = MAX ∧ ∃ f, s.file = some f ∧ f.length = Gen.Money.recSize * MAX
 
+/-! ### the loader: cache.LoadUHash → fillUHash → userecRawAddToUHash (the part that fills Userid / Money)
+
+This is where "SHM = .PASSWDS" comes from at start-up (`isOnfly = false`, fresh segment) and after an on-the-fly
+reload (`isOnfly = true`: only slots whose owner changed are refilled).  Which SHM arrays the fill block assigns,
+unconditionally and under `if ptttype.USE_COOLDOWN`, is read from the source (`Gen.Money.loaderCopies…`); the site
+configuration value `USE_COOLDOWN` is the parameter `cd`.  The user hash itself (HashHead / NextInHash) is C04's. -/
+
+def IDOFF : Nat := Gen.Money.userIDOffset
+def IDSZ : Nat := Gen.Money.userIDSize
+def PRE : Nat := Gen.Money.preAllocatedUsers
+
+def isAlphaB (c : Nat) : Bool := (65 ≤ c && c ≤ 90) || (97 ≤ c && c ≤ 122)
+def isAlnumB (c : Nat) : Bool := isAlphaB c || (48 ≤ c && c ≤ 57)
+
+/-- `UserID_t.IsValid`: C length 2..IDLEN, a letter first, letters and digits only. -/
+def idIsValid (id : List Nat) : Bool :=
+  let c := cstr id
+  2 ≤ c.length && c.length ≤ IDSZ - 1 && (match id with | a :: _ => isAlphaB a | [] => false) && c.all isAlnumB
+
+/-- the `UserID` field of record `i` (0-based) of the file. -/
+def fileId (f : List Nat) (i : Nat) : List Nat := (f.drop (RSZ * i + IDOFF)).take IDSZ
+
+/-- the `Money` field of record `i` (0-based) of the file (`0` only if the record is not complete: never asked). -/
+def fileMoney (f : List Nat) (i : Nat) : Int :=
+  match dec32? ((f.drop (RSZ * i + MOFF)).take 4) with
+  | some v => v
+  | none => 0
+
+/-- is the SHM array `field` assigned by the fill block under configuration `cd`? -/
+def loaderAssigns (cd : Bool) (field : String) : Bool :=
+  Gen.Money.loaderCopies.contains field || (cd && Gen.Money.loaderCopiesUnderCooldown.contains field)
+
+structure LState where
+  ids : List (List Nat)     -- Shm.Shm.Userid
+  shm : List Int            -- Shm.Shm.Money
+  cnt : Nat                 -- uHashLoaderInvalidUserID
+  deriving Repr
+
+/-- `userecRawAddToUHash(i, record i, isOnfly)` as far as Userid / Money go. -/
+def loadRec (onfly cd : Bool) (f : List Nat) (st : LState) (i : Nat) : LState :=
+  let uid := fileId f i
+  let bad := !idIsValid uid
+  let cnt := if bad then st.cnt + 1 else st.cnt
+  if bad && decide (PRE < cnt) then { st with cnt := cnt }            -- "preserve few slot for new register"
+  else if !onfly || (cstr uid != cstr (st.ids.getD i [])) then
+    { ids := if loaderAssigns cd "Userid" then st.ids.set i uid else st.ids,
+      shm := if loaderAssigns cd "Money" then st.shm.set i (fileMoney f i) else st.shm,
+      cnt := cnt }
+  else { st with cnt := cnt }
+
+/-- `cache.LoadUHash` (after `Shm.Reset()` when `onfly = false`): every complete record in file order; a record
+beyond the SHM arrays panics; a torn tail is an error after the complete records were loaded. -/
+def loadUHash (onfly cd : Bool) (ids : List (List Nat)) (s : State) : (List (List Nat) × State) × M Err :=
+  match s.file with
+  | none => ((ids, s), .ok .io)
+  | some f =>
+      let n := f.length / RSZ
+      let st := (List.range (min n MAX)).foldl (loadRec onfly cd f) { ids := ids, shm := s.shm, cnt := 0 }
+      let res := (st.ids, { s with shm := st.shm })
+      if MAX < n then (res, .error .panic)
+      else if f.length % RSZ ≠ 0 then (res, .ok .io)
+      else (res, .ok .none)
+
+/-- `Shm.Shm.Number`, `Shm.Shm.Loaded`. -/
+structure HashMeta where
+  number : Nat
+  loaded : Nat
+  deriving Repr, DecidableEq
+
+/-- `cache.LoadUHash` as called: a segment that was never loaded (`number == 0 && loaded == 0`) is filled from
+scratch, any other one on the fly; `Number` / `Loaded` are updated only when the fill succeeded. -/
+def loadUHashTop (cd : Bool) (m : HashMeta) (ids : List (List Nat)) (s : State) :
+    (HashMeta × List (List Nat) × State) × M Err :=
+  let fresh := m.number == 0 && m.loaded == 0
+  let r := loadUHash (!fresh) cd ids s
+  match r.2 with
+  | .ok .none =>
+      let n := match s.file with
+        | some f => f.length / RSZ
+        | none => 0
+      (({ number := n, loaded := if fresh then 1 else m.loaded }, r.1.1, r.1.2), r.2)
+  | _ => ((m, r.1.1, r.1.2), r.2)
+
+/-- a fresh start: `Shm.Reset()` (all Userid empty, all Money 0), then `LoadUHash`. -/
+def freshLoad (cd : Bool) (s : State) : (List (List Nat) × State) × M Err :=
+  loadUHash false cd (List.replicate MAX (List.replicate IDSZ 0)) { s with shm := List.replicate MAX 0 }
+
 end PttVerif.C20
